@@ -32,27 +32,31 @@ func (d *LocalDirectory) Write(fname string, reader io.Reader) (string, error) {
 		return "", fmt.Errorf("Directory.Write error creating directory %s: %w", d.Path, err)
 	}
 
-	targetFile, err := os.Create(fullPath)
+	// Write to a temporary file and rename it into place, so that a crash in the
+	// middle of the write never leaves a truncated file under the final name.
+	tmpFile, err := os.CreateTemp(destDir, ".tmp-"+filepath.Base(fullPath)+"-*")
 	if err != nil {
 		return "", fmt.Errorf("Directory.Write creating file %s: %w", fullPath, err)
 	}
-
-	_, err = io.Copy(targetFile, reader)
-	if err != nil {
-		return "", err
+	_, err = io.Copy(tmpFile, reader)
+	if closeErr := tmpFile.Close(); err == nil {
+		err = closeErr
 	}
-	err = targetFile.Close()
+	if err == nil {
+		err = os.Rename(tmpFile.Name(), fullPath)
+	}
 	if err != nil {
+		os.Remove(tmpFile.Name())
 		return "", err
 	}
 
 	for _, s := range d.subscriptions {
 		s <- FileEvent{
-			Path: targetFile.Name(),
+			Path: fullPath,
 			Op:   OpCreate,
 		}
 	}
-	return targetFile.Name(), nil
+	return fullPath, nil
 }
 
 // Read accepts both relative and absolute paths or URIs.
